@@ -91,7 +91,8 @@ func init() {
 		ID: "C02", Harness: "eng", Inst: storagePkgs, Level: "fault_enumeration", Classes: []string{"C02:", "crash"},
 		Cfgs: []cfgSpec{
 			{Name: "crash-single-client", Cfg: "clients=1,imgcap=10,cutden=25,noreopen,nosettle,wreopen=1", Gating: true, Share: 4},
-			{Name: "crash-concurrent", Cfg: "clients=3,imgcap=6,cutden=60,noreopen,nosettle", Gating: true, Share: 2},
+			{Name: "crash-concurrent", Cfg: "clients=3,imgcap=6,cutden=60,wrace=3,noreopen,nosettle", Gating: true, Share: 2},
+			{Name: "power-loss-single-client", Cfg: "clients=1,imgcap=10,cutden=25,noreopen,nosettle,wreopen=1,powerloss", Gating: true, Share: 2},
 		},
 		QuickSecs: 60, ThoroughSecs: 900, MaxRunsPerProc: 100,
 		Rule:   "one case = one generated write/delete/snapshot/compaction history plus the crash images cut from it (sampled disk events, torn last write); non-trivial = at least 4 operations and one context switch; distinct = distinct hash of (operations, schedule, crash cuts)",
@@ -107,6 +108,7 @@ func init() {
 		Cfgs: []cfgSpec{
 			{Name: "types-single-client-crash", Cfg: "clients=1,wtyped=8,wdel=0,wdm=2,wread=2,wbulk=0,imgcap=8,cutden=30,nosettle", Gating: true, Share: 3},
 			{Name: "types-racing-writers", Cfg: "clients=3,wtyped=8,wdel=0,wdm=1,wread=2,wbulk=0,noreopen,nosettle", Gating: true, Share: 2},
+			{Name: "new-field-racing-writers-crash", Cfg: "clients=3,wtyped=2,wrace=6,wdel=0,wdm=1,wread=2,wbulk=0,imgcap=12,cutden=40,noreopen,nosettle", Gating: true, Share: 4},
 		},
 		QuickSecs: 50, ThoroughSecs: 900, MaxRunsPerProc: 200,
 		Rule:   "one case = one generated history of typed writes (conflicting field types), measurement drops, reads, snapshots under one seeded schedule, plus sampled crash images; non-trivial = at least 4 operations and one context switch; distinct = distinct hash of (operations, schedule, crash cuts)",
